@@ -1345,7 +1345,7 @@ def process_points(ck, cases, state):
 def contour_cases(rng, thorough):
     for cname in ("DirectSamplingContour", "AndContour", "OrContour"):
         for n in (1, 2, 3, 4):
-            for smp in ("given", "drawn"):
+            for smp in ("given", "drawn", "given_2col"):
                 yield {"entry": "twod", "gen": ("neighbour:two_dim" if n == 2 else "single:not_two_dim"),
                        "contour": cname, "n_dim": n, "sample": smp}
     for t in ("ghm", "str", "none", "dict", "distribution", "subclass", "contour_class"):
@@ -1364,6 +1364,12 @@ def run_contour(case, models, state):
             key = ("sample", n)
             if key not in state:
                 state[key] = m.draw_sample(4000, random_state=3)
+            kw["sample"] = state[key]
+        elif case["sample"] == "given_2col":
+            # a two-column sample together with a model that is not two-dimensional: still not a 2-D model
+            key = ("sample", 2)
+            if key not in state:
+                state[key] = models[2].draw_sample(4000, random_state=3)
             kw["sample"] = state[key]
         else:
             kw["n"] = 4000
